@@ -312,9 +312,86 @@ def shard_work(shard, nshards, payload):
     return t
 
 
+# --------------------------------------------------------------------------- (d) files as the command writes them
+
+CLI_OPS = ["run-all", "run-first-two", "run-last-two", "edit-1", "edit-2", "edit-3", "delete-ui-2", "delete-ui-3"]
+
+
+def cli_source(k, rev):
+    return ("import qmluic.QtWidgets\nQWidget {\n    windowTitle: \"doc %d <&> rev %d\"\n"
+            "    QCheckBox { id: cb }\n    QLabel { text: \"a\\r\\n'b' %d\"; visible: cb.checked }\n}\n" % (k, rev, k))
+
+
+def cli_histories(tier):
+    n = 4 if tier == "thorough" else 3
+    for length in range(1, n + 1):
+        for h in itertools.product(CLI_OPS, repeat=length):
+            if not h[-1].startswith("run") or (length > 1 and not any(x.startswith("run") for x in h[:-1])):
+                continue        # ends with a run, and something was generated before the last run
+            yield h
+
+
+def cli_work(shard, nshards, payload):
+    import os
+    import subprocess
+    t = vc.Tally()
+    vd = vc.worker_vdrive()
+    stems = ["First", "Second", "Third"]
+    with vc.scratch_dir("c09cli") as scratch:
+        for hi, hist in enumerate(cli_histories(payload["tier"])):
+            if hi % nshards != shard:
+                continue
+            d = os.path.join(scratch, f"h{hi}")
+            os.makedirs(d)
+            rev = {s_: 0 for s_ in stems}
+            for k, s_ in enumerate(stems):
+                with open(os.path.join(d, s_ + ".qml"), "w") as f:
+                    f.write(cli_source(k, 0))
+            for step, op in enumerate(hist):
+                if op.startswith("edit-"):
+                    k = int(op[-1]) - 1
+                    rev[stems[k]] += 1
+                    with open(os.path.join(d, stems[k] + ".qml"), "w") as f:
+                        f.write(cli_source(k, rev[stems[k]]))
+                    continue
+                if op.startswith("delete-ui-"):
+                    k = int(op[-1]) - 1
+                    try:
+                        os.remove(os.path.join(d, stems[k].lower() + ".ui"))
+                    except FileNotFoundError:
+                        pass
+                    continue
+                which = {"run-all": stems, "run-first-two": stems[:2], "run-last-two": stems[1:]}[op]
+                p_ = subprocess.run([vc.QMLUIC_BIN, "generate-ui", "--foreign-types", vc.METATYPES] + [w + ".qml" for w in which],
+                                    cwd=d, stdout=subprocess.PIPE, stderr=subprocess.PIPE, timeout=60)
+                t.inc("cli_runs")
+                case = {"id": f"cli/{hi}", "history": list(hist), "step": step}
+                if p_.returncode != 0:
+                    t.violation("cli:run-failed", dict(case, stderr=p_.stderr.decode("utf-8", "replace")[-500:]))
+                    break
+                for k, s_ in enumerate(stems):
+                    if s_ not in which:
+                        continue
+                    with open(os.path.join(d, s_.lower() + ".ui"), "rb") as f:
+                        data = f.read().decode("utf-8", "replace")
+                    t.inc("cli_files_checked")
+                    root = check_structure(t, f"cli/{hi}/{step}/{s_}", "history " + " ".join(hist), data, s_)
+                    if root is None:
+                        continue
+                    want = vd.job({"id": 0, "source": cli_source(k, rev[s_]), "modes": ["generate"], "type_name": s_})["modes"]["generate"]["ui"]
+                    if data != want:
+                        t.violation("cli:file-differs-from-the-translation-of-its-source", dict(case, file=s_.lower() + ".ui", got=data[:1500]))
+            t.distinct.add(("cli",) + hist)
+            import shutil
+            shutil.rmtree(d, ignore_errors=True)
+    return t
+
+
 def main(tier, t0):
     vc.ensure_vdrive()
+    vc.ensure_cli()
     tally = vc.merge_tallies(vc.run_sharded(shard_work, {"tier": tier}))
+    tally.merge(vc.merge_tallies(vc.run_sharded(cli_work, {"tier": tier})))
     c = tally.counts
     cov = {
         "evaluations": c.get("strings_checked", 0) + c.get("files_parsed", 0) + c.get("names_checked", 0),
@@ -330,6 +407,8 @@ def main(tier, t0):
         "structure_documents": c.get("structure_documents", 0),
         "structure_accepted": c.get("structure_accepted", 0),
         "names_checked": c.get("names_checked", 0),
+        "files_written_by_the_command": {"histories": sum(1 for _ in cli_histories(tier)), "runs": c.get("cli_runs", 0),
+                                         "files_checked": c.get("cli_files_checked", 0), "operations": CLI_OPS},
     }
     assumptions = [
         "the XML parser is expat (XML 1.0 normalisation of line ends and attribute values applies, "
